@@ -38,7 +38,9 @@ MinOf(S) == CHOOSE m \in S : \A k \in S : m <= k
 RECURSIVE SumSz(_)
 SumSz(S) == IF S = {} THEN 0 ELSE LET a == CHOOSE a \in S : TRUE IN a.sz + SumSz(S \ {a})
 RECURSIVE SumBlk(_, _)
-SumBlk(S, sys) == IF S = {} THEN 0 ELSE LET a == CHOOSE a \in S : TRUE IN sys[a.sb + 1].size + SumBlk(S \ {a}, sys)
+\* (a node that lies in no block obtained from the system counts as 0: the guards report it, the sum stays total)
+SumBlk(S, sys) == IF S = {} THEN 0 ELSE LET a == CHOOSE a \in S : TRUE
+                                          IN (IF a.sb >= 0 /\ a.sb < Len(sys) THEN sys[a.sb + 1].size ELSE 0) + SumBlk(S \ {a}, sys)
 
 FreshState ==
   [sys     |-> <<>>,    \* blocks obtained from the system, in order: [size, kind, live, rwlo, rwhi]
